@@ -220,8 +220,8 @@ func (c *vctx) Deadline() (time.Time, bool) {
 	return c.parent.Deadline()
 }
 func (c *vctx) Done() <-chan struct{} { return c.done }
-func (c *vctx) Err() error             { return c.err }
-func (c *vctx) Value(k any) any        { return c.parent.Value(k) }
+func (c *vctx) Err() error            { return c.err }
+func (c *vctx) Value(k any) any       { return c.parent.Value(k) }
 
 func (c *vctx) cancel(err error) {
 	if c.err != nil {
